@@ -11,11 +11,13 @@ import z3
 from .axioms import Axioms
 from . import sym
 
-SOLVERS = [
+# z3 5.1.0 is the in-process solver (API); the CLI portfolio adds the two other installed solvers.  z3-new (5.1.0 CLI)
+# joins only in the thorough tier: three processes per open obligation on 16 workers made verdicts flip under load.
+SOLVERS_QUICK = [
     ("z3-4.8.12", ["/usr/bin/z3", "-smt2"]),
     ("cvc5-1.0.3", ["/usr/bin/cvc5", "--strings-exp", "--lang=smt2"]),
-    ("z3-5.1.0", ["z3-new", "-smt2"]),
 ]
+SOLVERS = SOLVERS_QUICK + [("z3-5.1.0", ["z3-new", "-smt2"])]
 
 
 class Status:
@@ -86,6 +88,7 @@ def input_values(model, inputs):
 
 def build_query(o, rounds=3, extra_rules=(), fuel=1):
     ax = Axioms(rounds=rounds)
+    ax.no_concat_law = bool(o.meta.get("no_concat_law"))
     ax.extra_rules = list(extra_rules)
     ax.fuel = fuel
     neg = z3.Not(o.goal)
@@ -148,8 +151,9 @@ def discharge(o, quick_ms=4000, cli_timeout=20, outdir=None, extra_rules=(), rou
     with open(fn, "w") as fh:
         fh.write(text)
     answers = []
-    with ThreadPoolExecutor(max_workers=len(SOLVERS)) as ex:
-        futs = [ex.submit(run_cli, n, c, fn, cli_timeout) for n, c in SOLVERS]
+    solvers = SOLVERS if cli_timeout > 60 else SOLVERS_QUICK
+    with ThreadPoolExecutor(max_workers=len(solvers)) as ex:
+        futs = [ex.submit(run_cli, n, c, fn, cli_timeout) for n, c in solvers]
         for f in futs:
             answers.append(f.result())
     verdicts = {a[1] for a in answers}
